@@ -135,3 +135,58 @@ def use_prop(p):
     if p.big:
         return p.total
     return 0
+
+
+import enum
+
+
+class OVersion(enum.IntEnum):
+    ONE = 1
+    TWO = 2
+
+
+class OBackend(enum.Enum):
+    FAST = "fast"
+    SAFE = "safe"
+
+
+DEFAULT_BACKEND = {1: OBackend.SAFE, 2: OBackend.FAST}
+
+
+def pick_backend(version, name):
+    v = OVersion(version)
+    if name is None:
+        backend = DEFAULT_BACKEND[v]
+    else:
+        backend = OBackend(name)
+    if backend is OBackend.FAST and v == OVersion.ONE:
+        return "unsupported"
+    return backend.value + str(v.value)
+
+
+def backend_name(b):
+    return b.name
+
+
+class OSide:
+    def __init__(self, side1):
+        self.side1 = side1
+
+    def first_glyphs(self):
+        if isinstance(self.side1, tuple):
+            return self.side1
+        else:
+            return (self.side1,)
+
+    def bases(self, marks):
+        if isinstance(self.side1, tuple):
+            return tuple(g for g in self.side1 if g not in marks)
+        return ()
+
+
+def side_in_marks(p, marks, table):
+    if isinstance(p.side1, tuple):
+        return 0
+    if p.side1 in marks:
+        return table.get(p.side1, 1)
+    return 2
